@@ -4,14 +4,15 @@ import sys, os, difflib
 V = os.path.dirname(os.path.abspath(__file__))
 grp, name, rel = sys.argv[1:4]
 spec = sys.stdin.read()
-src = open("/repo/" + rel).read(); dst = src
+src = open("/repo/" + rel, newline="").read(); dst = src
+nl = "\r\n" if "\r\n" in src else "\n"
 for part in spec.split("\n@@@@\n"):
     old, new = part.split("\n====\n") if "\n====\n" in part else (part.split("\n====")[0], "")
-    old = old.rstrip("\n"); new = new.rstrip("\n")
+    old = old.rstrip("\n").replace("\n", nl); new = new.rstrip("\n").replace("\n", nl)
     if dst.count(old) != 1: sys.exit("OLD text occurs %d times in %s:\n%s" % (dst.count(old), rel, old))
     dst = dst.replace(old, new)
 d = "".join(difflib.unified_diff(src.splitlines(True), dst.splitlines(True), "a/" + rel, "b/" + rel))
 os.makedirs(os.path.join(V, "mutants", grp), exist_ok=True)
 hdr = "".join("# " + l + "\n" for l in sys.argv[4:])
-open(os.path.join(V, "mutants", grp, name + ".patch"), "w").write(hdr + d)
+open(os.path.join(V, "mutants", grp, name + ".patch"), "w", newline="").write(hdr + d)
 print("wrote mutants/%s/%s.patch (%d lines)" % (grp, name, d.count("\n")))
